@@ -1326,6 +1326,40 @@ impl Gen {
         self.tx("alice", SMsg::FmClaim(None), vec![]);
     }
 
+    /// a farm driven to (and past) the end of its budget: a user's weight inflated by the until_epoch synchronisation
+    /// (finding F-until) makes a multi-epoch claim whose sum exceeds the remainder while no single epoch does; then the
+    /// other stakers' claims, a closing of the farm and the withdrawals
+    fn probe_exhaustion(&mut self) {
+        let Some(p) = self.mk_pool("a", &[("uom", 6), ("uusd", 6)], None, Self::std_fees()) else { return; };
+        let lp = self.lp_of(&p);
+        for u in ["alice", "bob", "carol"] { self.plain_provide(u, &p, vec![("uom".into(), 1_000_000_000), ("uusd".into(), 1_000_000_000)], None); }
+        let k = 1 + self.rng.below(3) as u128;
+        self.tx("alice", SMsg::FmPosCreate { id: Some("a".into()), dur: DAY, receiver: None }, vec![(lp.clone(), 1000 * k)]);
+        self.tx("bob", SMsg::FmPosCreate { id: Some("b".into()), dur: DAY, receiver: None }, vec![(lp.clone(), 1000 * k)]);
+        self.mk_farm("carol", &lp, "uusdc", 1000, 8, Some("f".into()), 1);
+        self.mk_farm("carol", &lp, "uom", 1_000_003, 3, Some("g".into()), 8);      // pays only after the inflated span
+        for _ in 0..6 { self.next_epoch(); }
+        self.q_rewards("alice", None);
+        self.tx("alice", SMsg::FmPosExpand("u-a".into()), vec![(lp.clone(), 9000 * k)]);
+        self.q_rewards("alice", Some(1));
+        self.tx("alice", SMsg::FmClaim(Some(1)), vec![]);
+        self.q_rewards("alice", None);
+        self.tx("alice", SMsg::FmClaim(None), vec![]);      // sum over the epochs exceeds what is left: refused
+        self.q_rewards("bob", None);
+        self.tx("bob", SMsg::FmClaim(None), vec![]);
+        self.next_epoch();
+        self.q_rewards("alice", None);
+        self.tx("alice", SMsg::FmClaim(None), vec![]);
+        self.tx("bob", SMsg::FmClaim(Some(7)), vec![]);
+        self.next_epoch();
+        self.tx("bob", SMsg::FmClaim(None), vec![]);
+        self.tx("alice", SMsg::FmClaim(None), vec![]);
+        self.tx("carol", SMsg::FmCloseFarm("m-f".into()), vec![]);
+        self.tx("carol", SMsg::FmCloseFarm("m-g".into()), vec![]);
+        self.tx("alice", SMsg::FmPosWithdraw("u-a".into(), Some(true)), vec![]);
+        self.tx("bob", SMsg::FmPosWithdraw("u-b".into(), Some(true)), vec![]);
+    }
+
     /// every position operation against every position state: open, closed and still locked, closed and unlocked, split off by
     /// a partial close, withdrawn; by the owner and by somebody else; full, equal-amount, smaller and larger amounts
     fn probe_position_states(&mut self) {
@@ -1496,7 +1530,7 @@ pub fn generate_probes(seed: u64, count: usize) -> Family {
         "From MD.Model Require Import Base Ownable Epoch PoolMath Types PoolManager FarmManager Chain CasesChain.",
         "chain_case",
         "run_chain_case",
-        "deterministic probe scripts, one per narrow situation (asset order after a slippage-protected deposit, foreign lock identifiers, malformed route junctions, extra fees, all feature-switch combinations, single-asset corner cases, farm funds in the fee denom, expiry windows, penalty sharing, thirds, position limit, empty claims, fractional weights, failing refunds, huge and unusual decimals, every position operation against every position state); amounts vary with the PRNG; full canonical snapshot compared after every operation",
+        "deterministic probe scripts, one per narrow situation (asset order after a slippage-protected deposit, foreign lock identifiers, malformed route junctions, extra fees, all feature-switch combinations, single-asset corner cases, farm funds in the fee denom, expiry windows, penalty sharing, thirds, position limit, empty claims, fractional weights, failing refunds, huge and unusual decimals, every position operation against every position state, a farm driven past the end of its budget); amounts vary with the PRNG; full canonical snapshot compared after every operation",
     );
     type F = fn(&mut Gen);
     let list: Vec<(&str, F)> = vec![
@@ -1505,7 +1539,7 @@ pub fn generate_probes(seed: u64, count: usize) -> Family {
         ("farm-funds", Gen::probe_farm_funds as F), ("expiry-window", Gen::probe_expiry_window as F), ("penalty-split", Gen::probe_penalty_split as F),
         ("thirds", Gen::probe_thirds as F), ("position-limit", Gen::probe_position_limit as F), ("empty-claims", Gen::probe_empty_claims as F),
         ("fractional-weights", Gen::probe_fractional_weights as F), ("failing-refunds", Gen::probe_failing_refunds as F), ("big-and-decimals", Gen::probe_big_and_decimals as F),
-        ("position-states", Gen::probe_position_states as F),
+        ("position-states", Gen::probe_position_states as F), ("exhaustion", Gen::probe_exhaustion as F),
     ];
     let mut rng = Rng::new(seed ^ 0x9B0B);
     let mut i = 0usize;
